@@ -42,6 +42,7 @@ func runC06(c *Ctx) {
 	checkErrorConstructorsNonNil(r, p)
 	// a failure branch records the error it is the branch of (TypedStore.Iterate: key vs value decode error)
 	checkFailureBranchReportsOwnError(r, p, "kvstore")
+	checkAbsentImpliesNoCachedValue(r, p, "kvstore", "TypedValue")
 	// 1. error discipline
 	checkErrChecked(r, p, "err/checked", errScope{Pkg: pkg, Funcs: append(append([]*ast.FuncDecl{}, tv...), ts...)})
 	for _, fd := range append(append([]*ast.FuncDecl{}, tv...), ts...) {
